@@ -199,6 +199,24 @@ pub fn c07_header(_req: &J) -> J {
         let next = child.next_unsealed().seal(None);
         if next.header().previous != ch.hash() || next.history(ch.height) != Some(ch) { bad.push("chaining of the next block".into()); }
         if ch.fee_pool == ph.fee_pool && ch.fee_multiplier == ph.fee_multiplier { bad.push("fee fields did not move in the scenario".into()); }
+        // transaction commitment (pre-TIP-908: sparse tree hash_nosigs -> full transaction): two sibling blocks whose only
+        // transaction differs in its signatures, each against an independently rebuilt tree
+        let mut roots = vec![];
+        for sigs in [vec![], vec![bytes::Bytes::from(vec![0x55u8; 3])]] {
+            let mut u = parent.next_unsealed();
+            let mut tx = block.transactions.iter().next().unwrap().clone();
+            tx.sigs = sigs;
+            u.apply_tx(&tx).expect("sibling block transaction");
+            let sealed = u.seal(None);
+            let mut reference = melstf::SmtMapping::<InMemoryCas, melstructs::TxHash, Transaction>::new(
+                Database::new(InMemoryCas::default()).get_tree(Default::default()).unwrap());
+            reference.insert(tx.hash_nosigs(), tx.clone());
+            if sealed.header().transactions_hash != reference.root_hash() {
+                bad.push(format!("transactions_hash of a block whose transaction carries {} signature(s) is not the root of its transaction tree", tx.sigs.len()));
+            }
+            roots.push(sealed.header().transactions_hash);
+        }
+        if roots[0] == roots[1] { bad.push("blocks whose transactions differ in their signatures share a transaction root".into()); }
         bad
     }));
     match r {
